@@ -33,11 +33,11 @@ func CheckOne(in string, keepWS bool) (kind, what, out string) {
 	return
 }
 
-var texts = []string{"t", " ", " t", "t ", " t ", "\n", "&amp;", "&lt;", "&#9;", "&#10;", "&apos;", "a &gt; b", "  ", "&e;", "t  u", "\u00a0", "\u3000 ", "\u0085", "t]]", "]"} // the last three: Unicode spaces that are NOT XML white space
+var texts = []string{"t", " ", " t", "t ", " t ", "\n", "&amp;", "&lt;", "&#9;", "&#10;", "&apos;", "a &gt; b", "  ", "&e;", "t  u", "\u00a0", "\u3000 ", "\u0085", "t]]", "]", "&#60;", "&#38;", "&#x3C;b&#x3e;", "&#38;amp;", "&#38;#60;"} // the last three: Unicode spaces that are NOT XML white space
 var cdatas = []string{"<![CDATA[x]]>", "<![CDATA[ x]]>", "<![CDATA[x ]]>", "<![CDATA[<&>]]>", "<![CDATA[]]]]><![CDATA[>]]>", "<![CDATA[]]>", "<![CDATA[ ]]>", "<![CDATA[a]]b]]>", "<![CDATA[<<<<&&&&]]>", "<![CDATA[>y]]>", "<![CDATA[]>]]>"}
 var others = []string{"<!--c-->", "<!-- -->", "<?p d?>", "<?q d  e ?>", "<?r x=\"1\" y?>", "<b/>", "<b></b>", "<b> </b>", "<b>t</b>", "<b>\u00a0</b>", "<b x=\"1\"> t  u </b>", "<b ></b >", "<b\n/>"}
 
-var attrSyms = []string{"a", " ", "\"", "'", "&lt;", "&amp;", "&#9;", "&#10;", "&#13;", "&quot;", "&apos;", ">", "\t", "&#32;", "&gt;"}
+var attrSyms = []string{"a", " ", "\"", "'", "&lt;", "&amp;", "&#9;", "&#10;", "&#13;", "&quot;", "&apos;", ">", "\t", "&#32;", "&gt;", "&#60;", "&#38;", "&#x3C;", "&#34;", "&#39;"} // the last five: numeric references to the characters that may not stand raw in an attribute value
 
 func docWith(content string, decl, doctype int) string {
 	var b strings.Builder
@@ -79,7 +79,7 @@ func runOne(c *core.Check, fam, in string, order uint64) uint64 {
 
 // Run executes C06.
 func Run(c *core.Check) {
-	c.Rule = "well-formed documents by grammar: optional XML declaration and DOCTYPE with internal subset, root with every content sequence of <=N items over text chunks (words, spaces, newlines, predefined/numeric/DTD entity references), CDATA sections (plain, edge spaces, markup characters, ]]> splits, empty), comments, PIs, child elements (empty in both spellings, whitespace-only, with attributes, with spaces in tags), nested one level deeper with a reduced alphabet; attribute values: every string of <=L symbols over quotes, references to tab/newline/CR/space, &lt; &amp; &gt; literal tab, in both quote kinds; KeepWhitespace off/on. Non-trivial = output differs from input"
+	c.Rule = "well-formed documents by grammar: optional XML declaration and DOCTYPE with internal subset, root with every content sequence of <=N items over text chunks (words, spaces, newlines, predefined/numeric/DTD entity references), CDATA sections (plain, edge spaces, markup characters, ]]> splits, empty), comments, PIs, child elements (empty in both spellings, whitespace-only, with attributes, with spaces in tags), nested one level deeper with a reduced alphabet; attribute values: every string of <=L symbols over quotes, references to tab/newline/CR/space, &lt; &amp; &gt; literal tab, numeric references to < & \" ', in both quote kinds; KeepWhitespace off/on. Non-trivial = output differs from input"
 	c.Assumptions = []string{"own XML tokenizer + encoding/xml (strict) for well-formedness", "attribute-value normalisation per XML 1.0 §3.3.3 (CDATA type)", "DTD-declared entities are opaque tokens"}
 	items := append(append(append([]string{}, texts...), cdatas...), others...)
 	n := c.Pick(3, 4)
